@@ -349,9 +349,11 @@ Matrix_NewFromNumber(int nrows, int ncols, int id, void *val, int val_id)
  */
 matrix * Matrix_NewFromSequence(PyObject *x, int id)
 {
-  int_t i, len = PySequence_Size(x);
+  int_t i, len;
   PyObject *seq = PySequence_Fast(x, "list is not iterable");
   if (!seq) return NULL;
+  /* the items are read from seq: its length counts, not x's __len__ */
+  len = PySequence_Fast_GET_SIZE(seq);
 
   if (id == -1) {
     for (i=0; i<len; i++) {
